@@ -97,6 +97,8 @@ theorem seqList_query_core (env : Env) (sid : Nat) (cur pend : Tr) : ∀ (layers
 theorem C05_query_readonly (env : Env) (s : St) :
     (query env s).1.core = s.core ∧ ownSig (query env s).2 = [(.query, 255), (.query, s.core.active)] := by
   unfold query
+  -- the translated table: `C_::deepQuery` runs the root head first
+  simp only [show headFirst .query = true from rfl, if_true]
   have hcore : ∀ sid (s : St), (deliver env .query sid {} {} s).1.core = s.core := by
     intro sid s
     unfold deliver
